@@ -322,6 +322,9 @@ func rulesC07(w *World, r *Report) {
 	}
 
 	ruleMethodSets(w, r, "C02.R2")
+	r.Rule("C07.R5", "32-bit representability at the parser: ParseDuration rejects x > MaxInt32/unit before multiplying; the validation loop covers the whole list", 2)
+	ruleParseOverflowGuards(w, r, "C07.R5")
+	ruleAllArchivesValidated(w, r, "C07.R5")
 }
 
 // ruleMethodSets: C02.R2
@@ -837,6 +840,8 @@ func rulesC03(w *World, r *Report) {
 			r.Check(okTest, "C03.R3", "extractPoints:stale-test", w.pos(extract.Pos()), "a point is stale iff its time <= now - retention", "the hit is not guarded by points[i].Time <= now.Add(-maxRetention)")
 		}
 	}
+	r.Rule("C03.R5", "no in-range point is lost inside the per-archive writer: archiveUpdateMany aligns and stores every point of the batch it is given", 2)
+	ruleWriterWritesAll(w, r, "C03.R5")
 	// R4 routing in UpdatePointsForArchive
 	for _, c := range callsTo(upm, aum) {
 		ex := newExprCtx(w)
@@ -854,6 +859,13 @@ func rulesC03(w *World, r *Report) {
 		// input = phi(batch, remaining of previous iteration)
 		okIn := strings.Contains(in, "p1") && strings.Contains(in, "@") || strings.Contains(in, "extractPoints(")
 		r.Check(okIn, "C03.R4", "UpdatePointsForArchive:remaining-flows-on", w.instrPos(c), "each archive partitions what the previous one left", "extractPoints does not receive the previous archive's remaining points: "+in)
+		okNow := false
+		for _, c2 := range callsTo(upm, aum) {
+			if sameLeaves(as[1], c2.Common().Args[3]) {
+				okNow = true
+			}
+		}
+		r.Check(okNow && !strings.Contains(ex.expr(as[1]), "intervalForWrite"), "C03.R4", "UpdatePointsForArchive:partition-clock", w.instrPos(c), "the partition uses the caller's clock value", "extractPoints is given "+ex.expr(as[1])+" instead of the clock value itself: the per-archive age cutoff moves and points just past a retention boundary are routed to the finer archive or dropped")
 		ret := ex.expr(as[2])
 		r.Check(strings.Contains(ret, "MaxRetention("), "C03.R4", "UpdatePointsForArchive:retention-arg", w.instrPos(c), "partition by the archive's own retention", "extractPoints is not given the archive's MaxRetention(): "+ret)
 	}
